@@ -297,9 +297,9 @@ Fixpoint any_stray (reqs : list sem_req) (reps : list (bytes * list N)) : bool :
   match reqs with
   | [] => false
   | m :: r =>
-      (match intended_reply (is_head m) (match reps with x :: _ => fst x | [] => default_resp end) with
-       | Some p => stray_after (is_head m) p
-       | None => false
+      (match frame_resp (is_head m) (match reps with x :: _ => fst x | [] => default_resp end) with
+       | PComplete _ p => stray_after (is_head m) p       (* the first reply in what the backend wrote *)
+       | _ => false
        end) || any_stray r (tl reps)
   end.
 
